@@ -399,6 +399,16 @@ func (s *sim) one(args []string) {
 	s.c.Log("cmd", "%s -> %s", q(args), nodeh.Fmt(r))
 	s.note(args, r)
 	s.after([][]string{args}, []interface{}{r}, "")
+	pm := 80
+	if laterFailingSetex([][]string{args}) {
+		pm = 300
+	}
+	if !isRead(args[0]) && nodeh.IsErr(r) && !s.fatal() && s.t.Bool(pm) {
+		// an erroring write may sit in the raft log: replaying it must not
+		// disturb its neighbours
+		s.c.Probe("restart_after_erroring_write")
+		s.restart(s.t.Bool(500))
+	}
 }
 
 // after: oracles after one command or after one batch (commands in their
@@ -425,13 +435,43 @@ func (s *sim) after(cmds [][]string, replies []interface{}, ctx string) {
 			return
 		}
 		var want interface{}
+		var zms []string
 		if useModel {
+			switch args[0] {
+			case "zrangebylex", "zlexcount", "zremrangebylex":
+				for m := range s.mdl.ZSet[args[1]] {
+					zms = append(zms, m)
+				}
+				sort.Strings(zms)
+			}
+			var had []bool
+			for _, x := range touched(args) {
+				had = append(had, s.holds(x))
+			}
 			want = s.mdl.Apply(args)
+			for j, x := range touched(args) {
+				if had[j] && !s.holds(x) && x.typ != "kv" {
+					c.Probe("collection_emptied")
+				}
+				if !had[j] && s.holds(x) {
+					n := 0
+					for _, typ := range types {
+						if s.holds(tuple{typ, x.key}) {
+							n++
+						}
+					}
+					if n >= 2 {
+						// the same key name now holds data in several types
+						c.Probe("name_reused_across_types")
+					}
+				}
+			}
 		}
 		pre := preState{listLen: -1}
 		if len(cmds) == 1 {
 			pre = s.pre
 		}
+		pre.zmembers = zms
 		key := knownShape(args, want, s.mdl, pre, s.cfg.engine)
 		if key == "" && s.panics > 0 && slowCmd(args[0]) {
 			if e, ok := replies[i].(nodeh.RErr); ok && strings.Contains(string(e), "context deadline exceeded") {
@@ -449,7 +489,7 @@ func (s *sim) after(cmds [][]string, replies []interface{}, ctx string) {
 		tainted := false
 		for _, x := range touched(args) {
 			tset[x.id()] = x
-			if key != "" && s.cur[x.id()] == "" {
+			if key != "" && (s.cur[x.id()] == "" || (damaging(key) && !damaging(s.cur[x.id()]))) {
 				s.cur[x.id()] = key
 			}
 			if s.taint[x.id()] != "" {
@@ -506,6 +546,24 @@ func (s *sim) after(cmds [][]string, replies []interface{}, ctx string) {
 	}
 	s.cur = nil
 	s.fresh = nil
+}
+
+// holds: the model has data under (type, key).
+func (s *sim) holds(x tuple) bool {
+	switch x.typ {
+	case "kv":
+		_, ok := s.mdl.KV[x.key]
+		return ok
+	case "list":
+		return len(s.mdl.List[x.key]) > 0
+	case "hash":
+		return len(s.mdl.Hash[x.key]) > 0
+	case "set":
+		return len(s.mdl.Set[x.key]) > 0
+	case "zset":
+		return len(s.mdl.ZSet[x.key]) > 0
+	}
+	return false
 }
 
 // compare: reply of the implementation against the reference model. Returns
@@ -656,6 +714,12 @@ func (s *sim) batch() {
 		}
 		cmds = append(cmds, a)
 	}
+	if !s.g.plain && (ftyp == "kv" || ftyp == "hash") && t.Bool(100) {
+		// a command that passes validation and fails when it is applied, last in
+		// the batch (its valid neighbours must not be affected)
+		cmds = append(cmds, []string{"setex", tb + ":" + s.g.pick(s.g.p.keys), s.g.pick([]string{"0", "-1", "x"}), "v"})
+		k++
+	}
 	release, _ := cl.Arm("raft.ready.begin", 0, 0)
 	h0 := s.applyHits
 	var calls []*nodeh.Call
@@ -712,6 +776,20 @@ func (s *sim) batch() {
 		s.note(append([]string{"(batch)"}, ocmds[i]...), oreps[i])
 	}
 	c.Log("batch", "n=%d queued=%d applies=%d", k, queued, applies)
+	if s.on08 {
+		// recorded deviation, judged on its own: a valid batchable write
+		// answered with an error because a later SETEX of the same apply batch
+		// fails when it is applied
+		m := s.mdl.Clone()
+		for i, a := range ocmds {
+			_, bad := m.Apply(a).(model.Err)
+			if !bad && batchable(a) && laterFailingSetex(ocmds[i+1:]) && nodeh.IsErr(oreps[i]) {
+				c.Violate(s.prop("C08"), "reply-differs-from-model", "batched-write-fails-with-neighbours-error",
+					"in one apply batch: %s answered %s although it is valid; a later call of the batch is %s", q(a), nodeh.Fmt(oreps[i]), q(ocmds[len(ocmds)-1]))
+				break
+			}
+		}
+	}
 	s.unjudged = false
 	if s.on08 || s.on12 {
 		var explained bool
@@ -732,9 +810,10 @@ func (s *sim) batch() {
 // returned before all were started), so any order of them is a legal
 // linearization; the implementation normally applies them in the order they
 // were proposed, but a command may be held back before it is proposed (the
-// slow-write limiter queues some commands). If the proposal order does not
-// explain the replies and the resulting data, every other order is tried;
-// the first one that explains everything is used. The first nimm commands
+// slow-write limiter queues SPOP, LTRIM, ZREMRANGEBY*, xCLEAR). If the
+// proposal order does not explain the replies and the resulting data and the
+// batch contains such a command, every other order is tried; the first one
+// that explains everything is used. The first nimm commands
 // (answered before anything was applied) stay in front.
 func (s *sim) linearize(cmds [][]string, reps []interface{}, nimm int) ([][]string, []interface{}, bool) {
 	n := len(cmds) - nimm
@@ -783,7 +862,15 @@ func (s *sim) linearize(cmds [][]string, reps []interface{}, nimm int) ([][]stri
 	if explains(order) {
 		return cmds, reps, true
 	}
-	if n < 2 || n > 7 {
+	// only the commands the slow-write limiter watches can be held back
+	// before they are proposed
+	held := false
+	for _, a := range cmds[nimm:] {
+		if slowCmd(a[0]) {
+			held = true
+		}
+	}
+	if n < 2 || n > 7 || !held {
 		return cmds, reps, false
 	}
 	var found []int
@@ -809,6 +896,13 @@ func (s *sim) linearize(cmds [][]string, reps []interface{}, nimm int) ([][]stri
 		return cmds, reps, false
 	}
 	s.c.Probe("batch_explained_by_other_order")
+	if p := os.Getenv("KVSIM_SURVEY"); p != "" {
+		var l []string
+		for i, a := range cmds {
+			l = append(l, q(a)+" -> "+nodeh.Fmt(reps[i]))
+		}
+		survey("", "batch-order nimm=%d order=%v: %s", nimm, found, strings.Join(l, " ; "))
+	}
 	s.c.Log("batch-order", "%v", found)
 	oc := append([][]string{}, cmds[:nimm]...)
 	or := append([]interface{}{}, reps[:nimm]...)
@@ -834,6 +928,9 @@ func (s *sim) batchHasKnownShape(cmds [][]string) bool {
 		if model.TypeOf(a[0]) == "zset" {
 			for _, x := range a[2:] {
 				if strings.HasPrefix(x, "(") || strings.Contains(strings.ToLower(x), "inf") || x == "+" || x == "-" {
+					return true
+				}
+				if s.cfg.engine == "mem" && strings.HasPrefix(x, "[") && strings.Contains(x, "\x00") {
 					return true
 				}
 			}
